@@ -78,14 +78,14 @@ package main
 
 //@ func RedactMongoLog
 //@   safety C07
-//@   props C01 C04 C12
+//@   props C01 C04 C12 C13 C15
 //@   assigns GoMaps, Arr:Val, Mem:OMap, decUseNumber
 //@   allocs Arr:Int, Arr:Slice, Mem:Str, Arr:Str
 //@   local c := mkCfg(redactedString, redactNumbers, redactBooleans, shouldEncrypt && encryptionKey != nil, mkbytes(elems(encryptionKey), off(encryptionKey), len(encryptionKey)), redactedFieldsRegexp, emailRegex, redactNamespaces)
 //@   snapshot_after UnmarshalOrdered#1 H0:[Int]OMap := comp("Mem:OMap")
 //@   loop 1 invariant no-prefix-so-far {C15}: !anyPrefix(nsStrOf(H0[attr]), selems(eagerRedactionPaths), off(eagerRedactionPaths), _idx) && om(attr) == omAfterIPs
 //@   snapshot_after (*orderedmap.OrderedMap).Get#3 omAfterIPs:OMap := om(mapOf(result0))
-//@   at_call redactCommand field-name-mode-iff-namespace-prefix {C15}: shouldEagerRedact == anyPrefix(nsStrOf(H0[attr]), selems(eagerRedactionPaths), off(eagerRedactionPaths), len(eagerRedactionPaths))
+//@   at_call redactCommand field-name-mode-iff-namespace-prefix {C15,C12}: shouldEagerRedact == anyPrefix(nsStrOf(H0[attr]), selems(eagerRedactionPaths), off(eagerRedactionPaths), len(eagerRedactionPaths))
 //@   post_local E := H0[result0]
 //@   post_local hasAttr := omIdx(E, "attr") >= 0 && isMap(omVal(E, omIdx(E, "attr")))
 //@   post_local attrRef := mapOf(omVal(E, omIdx(E, "attr")))
@@ -98,8 +98,9 @@ package main
 //@   ensures command-slot {C01,C12}: implies(result1 == nil && hasAttr && gate, SlotOK(c, A, B, "command"))
 //@   ensures cmd-slot {C01,C12}: implies(result1 == nil && hasAttr && gate, SlotOK(c, A, B, "cmd"))
 //@   ensures originating-command-slot {C01,C12}: implies(result1 == nil && hasAttr && gate, SlotOK(c, A, B, "originatingCommand"))
-//@   ensures attr-ns-pseudonymised {C12}: implies(result1 == nil && hasAttr && redactNamespaces && omIdx(A, "ns") >= 0, NsHashed(redactedString, omVal(A, omIdx(A, "ns")), omVal(B, omIdx(A, "ns"))))
+//@   ensures attr-ns-pseudonymised {C12,C13}: implies(result1 == nil && hasAttr && redactNamespaces && omIdx(A, "ns") >= 0, NsHashed(redactedString, omVal(A, omIdx(A, "ns")), omVal(B, omIdx(A, "ns"))))
 //@   ensures remote-address-replaced {C01}: implies(result1 == nil && hasAttr && redactIPs && omIdx(A, "remote") >= 0 && isStr(omVal(A, omIdx(A, "remote"))), omVal(B, omIdx(A, "remote")) == VStr(C_IP))
+//@   at_call redactFieldNamesFromPlanSummary plan-summary-only-in-field-name-mode {C15}: shouldEagerRedact
 
 //@ func MarshalOrdered
 //@   safety C07
@@ -418,6 +419,7 @@ package main
 //@   ensures key-path-frame: unchangedBelowExcept("Arr:Str", base(keyPath))
 //@   ensures range-frame: unchangedOutside("Arr:Str", base(keyPath), off(keyPath), off(keyPath) + len(keyPath) - 1)
 //@   ensures table-entry {C01,C04}: implies(result1 && isOp(result0) && result0 != VOp(5), TE(old(keyPath[len(keyPath)-1]), result0) || MarkerTE(result0))
+//@   trusted_ensures: result0 == opAtVal(old(selems(keyPath)), off(keyPath), len(keyPath), isSearchStage) && result1 == opAtOk(old(selems(keyPath)), off(keyPath), len(keyPath), isSearchStage)
 
 //@ func reMatchesAnyKeyInPath
 //@   safety C07
@@ -463,6 +465,8 @@ package main
 //@   ensures search-stage-ignores-selection {C14}: implies(isSearchStage && isStr(v) && !polExempt(pk), result == VStr(P) || (enc && result == VStr(CT)))
 //@   local c := mkCfg(redactedString, redactNumbers, redactBooleans, shouldEncrypt && encryptionKey != nil, mkbytes(elems(encryptionKey), off(encryptionKey), len(encryptionKey)), redactedFieldsRegexp, emailRegex, redactNamespaces)
 //@   ensures leaf-relation {C01,C03,C05,C02}: LeafOK(c, isSearchStage, pk, gpk, v, result)
+//@   local keptByOperator := opAtOk(selems(keyPath), off(keyPath), len(keyPath), isSearchStage) && opAtVal(selems(keyPath), off(keyPath), len(keyPath), isSearchStage) == VOp(1)
+//@   ensures exact-leaf-function {C02,C19}: implies(!enc && (v == nil || isStr(v) || isNum(v) || isBool(v)), result == ite(keptByOperator || (sel && !named), v, leafPH(c, pk, gpk, v)))
 
 //@ func parseValue
 //@   safety C07
@@ -483,7 +487,7 @@ package main
 
 //@ func redactArrayValuesWithKey
 //@   safety C07
-//@   props C01 C03 C14
+//@   props C01 C03 C14 C15
 //@   assigns Arr:Str, Arr:Val, GoMaps
 //@   allocs Arr:Int, Mem:OMap
 //@   local c := mkCfg(redactedString, redactNumbers, redactBooleans, shouldEncrypt && encryptionKey != nil, mkbytes(elems(encryptionKey), off(encryptionKey), len(encryptionKey)), redactedFieldsRegexp, emailRegex, redactNamespaces)
@@ -509,7 +513,7 @@ package main
 
 //@ func redactQueryValues
 //@   safety C07
-//@   props C01 C03 C14
+//@   props C01 C03 C14 C15
 //@   assigns Arr:Str, Arr:Val, GoMaps
 //@   allocs Arr:Int, Mem:OMap
 //@   requires map: obj != nil
@@ -525,6 +529,9 @@ package main
 //@   at_call redactScalarValue the-key-path-carries-every-name-down-to-the-value {C14}: matchAny(redactedFieldsRegexp, selems(arg_keyPath), off(arg_keyPath), len(arg_keyPath)) == (matchAny(redactedFieldsRegexp, selems(keyPath), off(keyPath), len(keyPath)) || reMatch(redactedFieldsRegexp, k))
 //@   at_call redactQueryValues the-key-path-carries-every-name-down-to-the-value {C14}: matchAny(redactedFieldsRegexp, selems(arg_keyPath), off(arg_keyPath), len(arg_keyPath)) == (matchAny(redactedFieldsRegexp, selems(keyPath), off(keyPath), len(keyPath)) || reMatch(redactedFieldsRegexp, k))
 //@   at_call redactArrayValuesWithKey the-key-path-carries-every-name-down-to-the-value {C14}: matchAny(redactedFieldsRegexp, selems(arg_keyPath), off(arg_keyPath), len(arg_keyPath)) == (matchAny(redactedFieldsRegexp, selems(keyPath), off(keyPath), len(keyPath)) || reMatch(redactedFieldsRegexp, k))
+//@   at_call (*orderedmap.OrderedMap).Set@newObj user-field-names-are-renamed {C15}: implies(redactFieldNames && key == k && k != HashNameSpec(redactedString, k), isTableKey(k))
+//@   at_call (*orderedmap.OrderedMap).Set@newObj keys-are-untouched-without-the-flag {C15,C04}: implies(!redactFieldNames, key == k)
+//@   at_call (*orderedmap.OrderedMap).Set@newObj field-path-references-are-renamed {C15}: implies(redactFieldNames && isDollar(v) && value == v && v != VStr(HashNameSpec(redactedString, strOf(v))), isTableKey(strOf(v)))
 
 //@ func augmentOp
 //@   safety C07
